@@ -1056,6 +1056,26 @@ wseed('C06f','C06.R5'); wseed('C07f','C07.R1'); wseed('C08f','C08.R6'); wseed('C
 
 wseed('C11f','C11.R6'); wseed('C12f','C12.R4'); wseed('C13f','C13.R2'); wseed('C14f','C14.R2'); wseed('C15f','C15.R4')
 wseed('C16f','C16.R3'); wseed('C17f','C17.R1'); wseed('C18f','C18.R3'); wseed('C19f','C19.R6'); wseed('C20f','C20.R1')
+# round 7 refactors (B40/p1 is a stated limit, see DESIGN 13.5: stored, not a silent witness)
+for b in ['B37','B38','B39','B40']:
+    for i in range(1,7):
+        if (b,i)==('B40',1): continue
+        wbenign(b,'p%d.diff'%i)
+# the C19g helper keyed by the whole (port, channel) element: property holds (duplicates are covered)
+w('C19', 'PROPERTY-HOLDING: perm channels de-duplicated by the whole (port, channel) element', '',
+  ('x/ophost/types/hook/bridge_hook.go', '\tsdkCtx := sdk.UnwrapSDKContext(ctx)\n\tfor _, permChannel := range metadata.PermChannels {\n\t\tportID, channelID := permChannel.PortID, permChannel.ChannelID\n\n\t\t// register challenger as channel admin',
+   '\tsdkCtx := sdk.UnwrapSDKContext(ctx)\n\tfor _, permChannel := range uniquePermChannels(metadata.PermChannels) {\n\t\tportID, channelID := permChannel.PortID, permChannel.ChannelID\n\n\t\t// register challenger as channel admin'),
+  ('x/ophost/types/hook/utils.go', '\t_, ok := jsonObject[key]\n\treturn ok\n}\n',
+   '\t_, ok := jsonObject[key]\n\treturn ok\n}\n\nfunc uniquePermChannels(channels []PortChannelID) []PortChannelID {\n\tseen := make(map[PortChannelID]struct{}, len(channels))\n\tunique := make([]PortChannelID, 0, len(channels))\n\tfor _, channel := range channels {\n\t\tif _, ok := seen[channel]; ok {\n\t\t\tcontinue\n\t\t}\n\t\tseen[channel] = struct{}{}\n\t\tunique = append(unique, channel)\n\t}\n\treturn unique\n}\n'))
+w('C19', 'BridgeCreated stops after the first listed channel', 'C19.R7',
+  ('x/ophost/types/hook/bridge_hook.go', '\t\t// register challenger as channel admin\n\t\tif err := h.registerChannelAdmin(sdkCtx, portID, channelID, challenger); err != nil {\n\t\t\treturn err\n\t\t}\n\t}\n\n\treturn nil\n}\n\nfunc (h BridgeHook) BridgeChallengerUpdated(',
+   '\t\t// register challenger as channel admin\n\t\tif err := h.registerChannelAdmin(sdkCtx, portID, channelID, challenger); err != nil {\n\t\t\treturn err\n\t\t}\n\t\tbreak\n\t}\n\n\treturn nil\n}\n\nfunc (h BridgeHook) BridgeChallengerUpdated('))
+w('C03', 'claim recorded before the proof is checked (record moved up)', 'C03.R6',
+  ('x/ophost/keeper/msg_server.go', '\tif ok, err := ms.HasProvenWithdrawal(ctx, bridgeId, withdrawalHash); err != nil {\n\t\treturn nil, err\n\t} else if ok {\n\t\treturn nil, types.ErrWithdrawalAlreadyFinalized\n\t}\n',
+   '\tif ok, err := ms.HasProvenWithdrawal(ctx, bridgeId, withdrawalHash); err != nil {\n\t\treturn nil, err\n\t} else if ok {\n\t\treturn nil, types.ErrWithdrawalAlreadyFinalized\n\t}\n\tif err := ms.RecordProvenWithdrawal(ctx, bridgeId, withdrawalHash); err != nil {\n\t\treturn nil, err\n\t}\n'),
+  ('x/ophost/keeper/msg_server.go', '\tif err := ms.RecordProvenWithdrawal(ctx, bridgeId, withdrawalHash); err != nil {\n\t\treturn nil, err\n\t}\n\n\t// transfer asset', '\t// transfer asset'))
+w('C15', 'TotalBondedTokens answers a constant for an empty height (no store read)', 'C15.R7',
+  ('x/opchild/keeper/host_validator_store.go', 'func (hv HostValidatorStore) TotalBondedTokens(ctx context.Context) (math.Int, error) {\n', 'func (hv HostValidatorStore) TotalBondedTokens(ctx context.Context) (math.Int, error) {\n\tif hv.consensusAddressCodec == nil {\n\t\treturn math.OneInt(), nil\n\t}\n'))
 # wave g
 wseed('C01g','C01.R4'); wseed('C02g','C02.R1'); wseed('C03g','C03.R6'); wseed('C04g','C04.R6'); wseed('C05g','C05.R8')
 wseed('C06g','C06.R1'); wseed('C07g','C07.R3'); wseed('C08g','C08.R1'); wseed('C09g','C09.R6'); wseed('C10g','C10.R7')
